@@ -65,14 +65,6 @@ impl Ty {
             Ty::OptOptVec => "optoptvec",
         }
     }
-    // offset (relative to the view's own) of the byte-length element a UTF-8 scan inside `new` would trust
-    fn str_len_at(&self) -> Option<usize> {
-        match self {
-            Ty::Str => Some(0),
-            Ty::OptStr => Some(1),
-            _ => None,
-        }
-    }
 }
 
 enum Val {
@@ -613,30 +605,12 @@ struct ViewReq {
     compare_load: bool,
 }
 
-// a view request is skipped in builds without overflow checks when `new` itself would scan memory it does not own
-fn unsafe_to_request(file: &[u64], req: &ViewReq) -> bool {
-    if DBG {
-        return false;
-    }
-    match req.ty.str_len_at() {
-        Some(d) => match req.offset.checked_add(d) {
-            Some(at) if at < file.len() => file[at] > u64::MAX - 7,
-            _ => false,
-        },
-        None => false,
-    }
-}
-
 fn emit_views(out: &mut Out, kind: &str, map: &MemoryMap, bytes: &[u8], reqs: &[ViewReq], nontrivial: bool) {
     let file = elements(bytes);
     let mut terms = String::from("[");
     let mut js = String::from("[");
     let mut first = true;
     for req in reqs {
-        if unsafe_to_request(&file, req) {
-            out.stat("skipped.utf8_scan_of_unbacked_memory");
-            continue;
-        }
         let o = observe_ty(map, req.ty, req.offset);
         let lc = if req.compare_load { load_compare(req.ty, bytes, req.offset, &o) } else { 0 };
         out.stat(&format!("view.{}.{}", kind, o.class()));
@@ -752,7 +726,8 @@ pub fn run(rng: &mut Rng, out: &mut Out, thorough: bool) {
         }
     }
 
-    // ---- files no serializer writes: length elements around every bound, viewed at offset 0 and 1
+    // ---- files no serializer writes: length elements around every bound, viewed at offsets 0..2.
+    // Every declared length that does not fit must be refused with Err in every build (finding F12, repaired).
     let nbad = if thorough { 600 } else { 80 };
     for _ in 0..nbad {
         let body = rng.range(0, 6) as usize;
